@@ -51,16 +51,16 @@ def format_rows(fmt):
         if fmt.get("line_delimiter"):
             rows.append(["D", "Line delimiter", fmt["line_delimiter"]])
     if fmt["format"] == "delimited":
-        rows.append(["D", "Encoding", "utf-8"])
+        rows.append(["D", "Encoding", fmt.get("encoding") or "utf-8"])
         # optional dialect (set by checks that write): item delimiter, quote and escape character
         if fmt.get("item_delimiter"):
-            rows.append(["D", "Item delimiter", '"%s"' % fmt["item_delimiter"]])
+            rows.append(["D", "Item delimiter", "Tab" if fmt["item_delimiter"] == "\t" else '"%s"' % fmt["item_delimiter"]])
         if fmt.get("quote_character"):
             rows.append(["D", "Quote character", fmt["quote_character"]])
         if fmt.get("escape_character"):
             rows.append(["D", "Escape character", fmt["escape_character"]])
     if fmt["format"] == "fixed":
-        rows.append(["D", "Encoding", "utf-8"])
+        rows.append(["D", "Encoding", fmt.get("encoding") or "utf-8"])
     if fmt.get("header"):
         rows.append(["D", "Header", str(fmt["header"])])
     if fmt.get("sheet"):
